@@ -237,15 +237,15 @@ Section Steps.
     map (MAddRow t) rows ++ concat (map (cell_steps t rows) known)
     ++ (if bool_decide (length known = length vals') then [] else [MFail]).
 
-  (* BulkUpdateRecord: per column: undo values, then the sets; the undo action is appended AFTER the loop *)
+  (* BulkUpdateRecord (since 6f648c6): every column is resolved and its undo values read first (an unknown column
+     raises before anything is written), the undo action is appended, THEN the cells are written *)
   Definition update_steps (tb : table) (t : name) (rows : list rowid) (vals : list (name * list val))
       : list mstep :=
-    let known := known_prefix tb vals in
-    concat (map (cell_steps t rows) known)
-    ++ (if bool_decide (length known = length vals)
-        then [MUndo (BulkUpdateRecord t rows
-                       (omap (fun cv => (fun col => (cv.1, map (cget col) rows)) <$> t_cols tb !! cv.1) vals))]
-        else [MFail]).
+    if bool_decide (length (known_prefix tb vals) = length vals)
+    then MUndo (BulkUpdateRecord t rows
+                  (omap (fun cv => (fun col => (cv.1, map (cget col) rows)) <$> t_cols tb !! cv.1) vals))
+         :: concat (map (cell_steps t rows) vals)
+    else [MFail].
 
   Definition all_default (col : column) (rows : list rowid) : bool :=
     forallb (fun r => bool_decide (cget col r = cdefault col)) rows.
@@ -596,20 +596,3 @@ Definition rollback_raises (ord : name -> list name) (d : doc) (es : list event)
   | Finished _ => false
   end.
 
-(* ---------------------------------------------------------------------------------------------------------- *)
-(* REPAIRED BulkUpdateRecord (notes/proposed_fixes/C04-BulkUpdateRecord-undo-first.diff): every column is resolved and
-   the undo action is appended BEFORE the first cell is written. *)
-Definition update_steps_repaired (tb : table) (t : name) (rows : list rowid) (vals : list (name * list val))
-  : list mstep :=
-  if bool_decide (length (known_prefix tb vals) = length vals)
-  then MUndo (BulkUpdateRecord t rows
-                (omap (fun cv => (fun col => (cv.1, map (cget col) rows)) <$> t_cols tb !! cv.1) vals))
-       :: concat (map (cell_steps t rows) vals)
-  else [MFail].
-
-Definition update_repaired (d : doc) (t : name) (rows : list rowid) (vals : list (name * list val)) : list mstep :=
-  match d_tables d !! t with
-  | None => [MFail]
-  | Some tb => if bool_decide (Forall (fun r => r ∈ t_rows tb) rows) then update_steps_repaired tb t rows vals
-               else [MFail]
-  end.
